@@ -107,6 +107,18 @@ LayerIsGeometricMean ==
     Built => /\ Len(lay) = n
              /\ \A k \in 1..n : /\ GeoMeanRel(XMul, REqual, P10r(lay[k]), P10r(lev[k]), P10r(lev[k + 1]))
                                 /\ lev[k + 1] < lay[k] /\ lay[k] < lev[k]
+\* array / file input options: the admissible ones expose exactly the layers, the others would expose
+\* them top first (increasing), i.e. the flag matters; levels bracket their layers
+ArrayInputOrientation ==
+    Built => /\ {OptionSeq[j] : j \in 1..Len(OptionSeq)} =
+                   {o \in [orient : Orientations, reverse : BOOLEAN] : OptionAdmissible(o.orient, o.reverse)}
+             /\ \A j \in 1..Len(OptionSeq) :
+                   /\ OrientedInputRel(REqual, lay, ArrayInput(lay, OptionSeq[j].orient), OptionSeq[j].reverse)
+                   /\ SeqStrictlyDecreasing(ILt, Oriented(ArrayInput(lay, OptionSeq[j].orient), OptionSeq[j].reverse))
+             /\ \A orient \in Orientations, rev \in BOOLEAN :
+                   (n >= 2 /\ ~OptionAdmissible(orient, rev)) =>
+                       SeqStrictlyIncreasing(ILt, Oriented(ArrayInput(lay, orient), rev))
+             /\ BracketRel(ILt, lev, lay)
 AltitudeStrictlyIncreasing ==
     /\ z[1] = Q(0)
     /\ Len(z) = i + 1
@@ -123,5 +135,8 @@ FitsInv == /\ \A k \in 1..Len(z) : Fits(z[k])
 
 Emit == (Export /\ Done) =>
     PrintT(<<"VEC", ToJson([n |-> n, lev |-> lev, lay |-> lay, T |-> T, mu |-> mu, rad |-> rad, gm |-> gm,
-                            z |-> z, g |-> g, H |-> H, rho |-> [k \in 1..n |-> Rho(k)], prof |-> prof])>>)
+                            z |-> z, g |-> g, H |-> H, rho |-> [k \in 1..n |-> Rho(k)], prof |-> prof,
+                            inputs |-> [j \in 1..Len(OptionSeq) |->
+                                          [orient |-> OptionSeq[j].orient, reverse |-> OptionSeq[j].reverse,
+                                           array |-> ArrayInput(lay, OptionSeq[j].orient)]]])>>)
 =============================================================================
